@@ -246,3 +246,370 @@ Proof.
     destruct (os_orphan m) eqn:Horph; [|reflexivity]. cbn [negb orb].
     destruct (C05_orphan_deletes_nothing (sc_force c) (sc_world c) _ _ _ m sw e r Ef Hg Horph E) as [-> _]. reflexivity.
 Qed.
+
+(** ** Traces: what the pass last saw of a phase object is what the world holds *)
+From PKOCorr Require C15Corr.
+
+Lemma last_seen_app nm a : forall b acc,
+  C15Corr.last_seen nm (a ++ b) acc = C15Corr.last_seen nm b (C15Corr.last_seen nm a acc).
+Proof.
+  induction a as [|e a IH]; intros b acc; [reflexivity|]. cbn [app].
+  destruct e as [x|ms|p]; cbn [C15Corr.last_seen]; try apply IH.
+  destruct p as [n r|n [p|]|n pa [p|]|n r|n ok|n ad ok|n cs co ok]; apply IH.
+Qed.
+
+Lemma last_seen_members nm l acc : C15Corr.last_seen nm (map SMember l) acc = acc.
+Proof. induction l as [|x l IH]; [reflexivity|]. exact IH. Qed.
+
+Lemma last_seen_keeps2 mem0 nm l : Forall (keeps2 mem0) l -> forall acc, C15Corr.last_seen nm l acc = acc.
+Proof.
+  induction l as [|e l IH]; intros H acc; [reflexivity|]. inversion H; subst.
+  destruct e as [x|ms|p]; try contradiction. cbn. now apply IH.
+Qed.
+
+Lemma last_seen_some nm l : forall acc, acc <> None -> C15Corr.last_seen nm l acc <> None.
+Proof.
+  induction l as [|e l IH]; intros acc Ha; [exact Ha|].
+  destruct e as [x|ms|p]; cbn [C15Corr.last_seen]; try now apply IH.
+  destruct p as [n r|n [p|]|n pa [p|]|n r|n ok|n ad ok|n cs co ok]; try now apply IH.
+  all: apply IH; destruct (n =? nm); [discriminate|exact Ha].
+Qed.
+
+Lemma last_seen_read nm l : read_in l nm -> forall acc, C15Corr.last_seen nm l acc <> None.
+Proof.
+  intros Hr. induction l as [|e l IH]; intros acc.
+  - destruct Hr as [(r & [])|(pa & p & [])].
+  - assert (Hcase : e = SPhase (PGet nm (match e with SPhase (PGet _ r) => r | _ => None end)) \/
+                    (exists pa p, e = SPhase (PPause nm pa (Some p))) \/ read_in l nm).
+    { destruct Hr as [(r & [->|Hin])|(pa & p & [->|Hin])].
+      - now left.
+      - right. right. left. eauto.
+      - right. left. eauto.
+      - right. right. right. eauto. }
+    destruct Hcase as [->|[(pa & p & ->)|Hl]].
+    + cbn. rewrite N.eqb_refl. apply last_seen_some. discriminate.
+    + cbn. rewrite N.eqb_refl. apply last_seen_some. discriminate.
+    + destruct e as [x|ms|p]; cbn [C15Corr.last_seen]; try now apply IH.
+      destruct p as [n r|n [p|]|n pa [p|]|n r|n ok|n ad ok|n cs co ok]; now apply IH.
+Qed.
+
+(** the reads for the Paused condition return what is stored *)
+Lemma last_seen_reads phs kind ns nm refs : forall acc,
+  C15Corr.last_seen nm (paused_reads_l phs kind ns refs) acc = acc \/
+  C15Corr.last_seen nm (paused_reads_l phs kind ns refs) acc = Some (find_phase phs kind ns nm).
+Proof.
+  induction refs as [|x l IH]; intros acc; [now left|]. cbn [paused_reads_l].
+  destruct (find_phase phs kind ns (fst x)) as [p|] eqn:Ef.
+  - cbn [C15Corr.last_seen]. destruct (fst x =? nm) eqn:En.
+    + apply N.eqb_eq in En. subst nm. destruct (IH (Some (Some p))) as [-> | ->]; right; now rewrite Ef.
+    + apply IH.
+  - cbn. destruct (fst x =? nm) eqn:En; [|now left]. apply N.eqb_eq in En. subst nm. right. now rewrite Ef.
+Qed.
+
+(** one step of the remote phase reconciler: its own name is last seen as stored, the others are untouched *)
+Lemma remote_reconcile_last_seen sw s ph rem sw1 e1 rem1 r :
+  remote_reconcile sw s ph rem = (sw1, e1, rem1, r) ->
+  forall nm acc, C15Corr.last_seen nm e1 acc =
+                 if pobj_name s ph =? nm then Some (find_phase (sw_phases sw1) (phase_kind s) (oi_ns (os_id s)) nm) else acc.
+Proof.
+  unfold remote_reconcile, pobj_name. cbn [desired_phase op_id oi_kind oi_ns oi_name op_paused].
+  set (name := join_name (oi_name (os_id s)) (ph_name ph)).
+  destruct (find_phase (sw_phases sw) (phase_kind s) (oi_ns (os_id s)) name) as [cur|] eqn:Ef.
+  - destruct (find_phase_key _ _ _ _ _ Ef) as (Hk & Hns & Hn).
+    destruct (negb (controlled_by_uid (op_owners cur) (oi_uid (os_id s)))).
+    { intros H nm acc. injection H as <- <- _ _. cbn. destruct (name =? nm) eqn:En; [|reflexivity].
+      apply N.eqb_eq in En. subst nm. now rewrite Ef. }
+    destruct (Bool.eqb (op_paused cur) _).
+    + intros H nm acc. injection H as <- <- _ _. cbn. destruct (name =? nm) eqn:En; [|reflexivity].
+      apply N.eqb_eq in En. subst nm. now rewrite Ef.
+    + intros H nm acc. injection H as <- <- _ _. cbn [C15Corr.last_seen sw_phases with_phases].
+      destruct (name =? nm) eqn:En; [|reflexivity]. apply N.eqb_eq in En. subst nm.
+      set (cur' := phase_with cur _ _ _ _ _ _).
+      pose proof (find_put_phase_same (sw_phases sw) cur') as Hx. change (op_id cur') with (op_id cur) in Hx.
+      rewrite Hk, Hns, Hn in Hx. now rewrite Hx.
+  - intros H nm acc. injection H as <- <- _ _. cbn [C15Corr.last_seen sw_phases with_phases].
+    destruct (name =? nm) eqn:En; [|reflexivity]. apply N.eqb_eq in En. subst nm.
+    match goal with |- _ = Some (find_phase (put_phase _ ?st) _ _ _) => pose proof (find_put_phase_same (sw_phases sw) st) as Hx end.
+    cbn [op_id stamp_phase desired_phase oi_kind oi_ns oi_name] in Hx. fold name in Hx. now rewrite Hx.
+Qed.
+
+Definition coh (s : oset) (phs : list osphase) (evs : list sev) : Prop :=
+  forall nm, match C15Corr.last_seen nm evs None with
+             | None => True
+             | Some x => x = find_phase phs (phase_kind s) (oi_ns (os_id s)) nm end.
+
+Lemma coh_keeps2 mem0 s phs l : Forall (keeps2 mem0) l -> coh s phs l.
+Proof. intros H nm. now rewrite (last_seen_keeps2 _ _ _ H). Qed.
+
+Lemma coh_app_keeps2 mem0 s phs a l : coh s phs a -> Forall (keeps2 mem0) l -> coh s phs (a ++ l).
+Proof. intros Hc H nm. rewrite last_seen_app, (last_seen_keeps2 _ _ _ H). apply Hc. Qed.
+
+Lemma coh_app_meta s phs a ms : coh s phs a -> coh s phs (a ++ [SMeta ms]).
+Proof. intros Hc nm. rewrite last_seen_app. cbn. apply Hc. Qed.
+
+Lemma coh_app_reads s phs a refs : coh s phs a -> coh s phs (a ++ paused_reads_l phs (phase_kind s) (oi_ns (os_id s)) refs).
+Proof.
+  intros Hc nm. rewrite last_seen_app.
+  destruct (last_seen_reads phs (phase_kind s) (oi_ns (os_id s)) nm refs (C15Corr.last_seen nm a None)) as [-> | ->]; [apply Hc|reflexivity].
+Qed.
+
+Lemma coh_rpm force s ow prev phs : forall sw acc rem sw' evs rem' r a,
+  reconcile_phases_m force sw s ow prev phs acc rem = (sw', evs, rem', r) ->
+  coh s (sw_phases sw) a -> coh s (sw_phases sw') (a ++ evs).
+Proof.
+  induction phs as [|ph rest IH]; intros sw acc rem sw' evs rem' r a H Hc.
+  - cbn in H. injection H as <- <- _ _. now rewrite app_nil_r.
+  - rewrite rpm_cons in H. destruct (ph_class ph).
+    + destruct (remote_reconcile sw s ph rem) as [[[sw1 e1] rem1] r1] eqn:E1.
+      assert (Hc1 : coh s (sw_phases sw1) (a ++ e1)).
+      { intros nm. rewrite last_seen_app, (remote_reconcile_last_seen _ _ _ _ _ _ _ _ E1).
+        destruct (pobj_name s ph =? nm) eqn:En; [reflexivity|].
+        destruct (remote_reconcile_inv _ _ _ _ _ _ _ _ E1) as (_ & _ & _ & _ & Hfr & _).
+        rewrite Hfr by (now rewrite !N.eqb_refl, En). apply Hc. }
+      destruct r1 as [|active failed]; [injection H as <- <- _ _; exact Hc1|].
+      destruct failed; [injection H as <- <- _ _; exact Hc1|].
+      destruct (reconcile_phases_m force sw1 s ow prev rest (acc ++ active) rem1) as [[[sw2 e2] rem2] r2] eqn:E2.
+      injection H as <- <- _ _. rewrite app_assoc. eapply IH; eauto.
+    + destruct (reconcile_phase _ idw (sw_w sw) ow prev false (ph_objects ph)) as [[w1 e1] r1] eqn:E1.
+      assert (Hc1 : coh s (sw_phases (with_w sw w1)) (a ++ map SMember e1)).
+      { intros nm. rewrite last_seen_app, last_seen_members. apply Hc. }
+      destruct r1 as [e|vs|actual failed]; try (injection H as <- <- _ _; exact Hc1).
+      destruct failed as [|f fs]; [|injection H as <- <- _ _; exact Hc1].
+      cbv zeta in H.
+      match type of H with context [reconcile_phases_m force ?x s ow prev rest ?b ?d] =>
+        destruct (reconcile_phases_m force x s ow prev rest b d) as [[[sw2 e2] rem2] r2] eqn:E2 end.
+      injection H as <- <- _ _. rewrite app_assoc. eapply IH; eauto.
+Qed.
+
+(** the whole observation of a pass that reached the loop is coherent with the phase objects it leaves *)
+Lemma after_loop2_coh force mem0 mem1 sw1 sw2 prev pre pevs rem pr evs r :
+  reconcile_phases_m force sw1 mem1 (as_owner mem1) prev (os_phases mem1) [] (os_remotes mem1) = (sw2, pevs, rem, pr) ->
+  Forall (keeps2 mem0) pre -> after_loop2 mem1 sw2 pre pevs rem pr evs r ->
+  coh mem1 (sw_phases sw2) evs.
+Proof.
+  intros Hrp Hpre Hal.
+  assert (Hc : coh mem1 (sw_phases sw2) (pre ++ pevs)).
+  { eapply coh_rpm; [exact Hrp|]. eapply coh_keeps2; eauto. }
+  unfold after_loop2 in Hal. destruct pr as [e| | |ctrlof failed].
+  - destruct (is_collision e).
+    + destruct Hal as (ok & -> & _). rewrite !app_assoc. now apply coh_app_meta.
+    + destruct Hal as [-> _]. exact Hc.
+  - destruct Hal as [-> _]. exact Hc.
+  - destruct Hal as (ok & -> & _). rewrite !app_assoc. now apply coh_app_meta.
+  - destruct Hal as (ok & -> & _). rewrite !app_assoc. apply coh_app_meta. rewrite <- app_assoc.
+    unfold paused_reads. change (phase_kind (set_remotes mem1 rem)) with (phase_kind mem1).
+    change (oi_ns (os_id (set_remotes mem1 rem))) with (oi_ns (os_id mem1)). rewrite app_assoc. now apply coh_app_reads.
+Qed.
+
+(** ** m03 *)
+Lemma phase_index_exact m k ph l2 : forall l1 i,
+  NoDup (flat_map (pkeys m) (l1 ++ ph :: l2)) -> In k (pkeys m ph) ->
+  phase_index m (l1 ++ ph :: l2) k i = Some (i + length l1)%nat.
+Proof.
+  induction l1 as [|q l1 IH]; intros i Hnd Hk; cbn [app phase_index].
+  - assert (existsb (okey_eqb k) (pkeys m ph) = true) as -> by now apply existsb_okey. cbn. f_equal. lia.
+  - cbn in Hnd. destruct (existsb (okey_eqb k) (pkeys m q)) eqn:E.
+    + exfalso. apply existsb_okey in E. eapply NoDup_app_disj; [exact Hnd|exact E|].
+      apply in_flat_map. exists ph. split; [apply in_or_app; right; now left|exact Hk].
+    + rewrite (IH (S i) (NoDup_app_r _ _ Hnd) Hk). cbn. f_equal. lia.
+Qed.
+
+Lemma phase_index_bound m k q : forall l1 l2 i,
+  In q l1 -> In k (pkeys m q) -> exists j, phase_index m (l1 ++ l2) k i = Some (i + j)%nat /\ (j < length l1)%nat.
+Proof.
+  induction l1 as [|q0 l1 IH]; intros l2 i Hq Hk; [contradiction|]. cbn [app phase_index].
+  destruct (existsb (okey_eqb k) (pkeys m q0)) eqn:E.
+  - exists O. split; [f_equal; lia|cbn; lia].
+  - destruct Hq as [->|Hq]; [apply existsb_okey in Hk; congruence|].
+    destruct (IH l2 (S i) Hq Hk) as (j & Hj & Hlt). exists (S j). split; [rewrite Hj; f_equal; lia|cbn; lia].
+Qed.
+
+Lemma ow_paused_as_owner m : ow_paused (as_owner m) = lifecycle_eqb (os_life m) LPaused.
+Proof. reflexivity. Qed.
+
+Lemma phase_ok2_okb m w q : phase_ok2 w (as_owner m) q -> phase_okb m (w_store w) q = true.
+Proof.
+  intros H. unfold phase_okb, pkeys. apply forallb_forall. intros k Hk. apply in_map_iff in Hk. destruct Hk as (p & <- & Hp).
+  destruct (H p Hp) as (o & Ho & Hpr & Hc). unfold obj_okb, spec_key. fold (key_of (as_owner m) p). rewrite Ho, Hpr. cbn [andb].
+  rewrite ow_paused_as_owner in Hc. destruct (lifecycle_eqb (os_life m) LPaused); [now rewrite Hc|reflexivity].
+Qed.
+
+Lemma phase_ok_okb m w q : lifecycle_eqb (os_life m) LPaused = false -> phase_ok w (as_owner m) q -> phase_okb m (w_store w) q = true.
+Proof.
+  intros Hl H. apply phase_ok2_okb. intros p Hp. destruct (H p Hp) as (o & Ho & Hpr). exists o. split; [exact Ho|]. split; [exact Hpr|].
+  rewrite ow_paused_as_owner, Hl. discriminate.
+Qed.
+
+Lemma obj_fails_okb m w q p : In p (ph_objects q) -> obj_fails w (as_owner m) p -> phase_okb m (w_store w) q = false.
+Proof.
+  intros Hp Hf. unfold phase_okb. apply Bool.not_true_is_false. intros Hall. rewrite forallb_forall in Hall.
+  assert (Hk : In (spec_key m p) (pkeys m q)) by (unfold pkeys; now apply in_map). specialize (Hall _ Hk).
+  unfold obj_okb, spec_key in Hall. unfold obj_fails in Hf. fold (key_of (as_owner m) p) in Hall.
+  destruct (lookup (key_of (as_owner m) p) (w_store w)) as [o|]; [|discriminate].
+  apply andb_true_iff in Hall. destruct Hall as [H1 H2]. destruct Hf as [Hf|[Hpa Hc]]; [congruence|].
+  rewrite ow_paused_as_owner in Hpa. rewrite Hpa, Hc in H2. discriminate.
+Qed.
+
+Lemma phase_ok2_same m1 m0 w q : same_spec m1 m0 -> phase_ok2 w (as_owner m1) q -> phase_ok2 w (as_owner m0) q.
+Proof.
+  intros Hs H p Hp. destruct (as_owner_keys _ _ Hs) as (_ & Hk & Hpa & _). destruct (H p Hp) as (o & Ho & Hpr & Hc).
+  exists o. rewrite <- Hk, <- Hpa. auto.
+Qed.
+
+Lemma obj_fails_same m1 m0 w p : same_spec m1 m0 -> obj_fails w (as_owner m1) p -> obj_fails w (as_owner m0) p.
+Proof.
+  intros Hs. destruct (as_owner_keys _ _ Hs) as (_ & Hk & Hpa & _). unfold obj_fails. now rewrite Hk, Hpa.
+Qed.
+
+Lemma find_by_name (phs : list phase) ph n :
+  NoDup (map ph_name phs) -> In ph phs -> ph_name ph = n -> find (fun q => ph_name q =? n) phs = Some ph.
+Proof.
+  induction phs as [|q phs IH]; intros Hnd Hin Hn; [contradiction|]. cbn in *. inversion Hnd as [|? ? Hnotin Hnd']; subst.
+  destruct Hin as [->|Hin]; [now rewrite N.eqb_refl|].
+  destruct (ph_name q =? ph_name ph) eqn:E; [|now apply IH].
+  exfalso. apply N.eqb_eq in E. apply Hnotin. rewrite E. now apply in_map.
+Qed.
+
+Lemma relay_failed_not_avail cur active : relay cur = RROk active true -> C15Corr.avail_currentb cur = false.
+Proof.
+  unfold relay, C15Corr.avail_currentb. destruct (find_cond (op_conds cur) CAvailable) as [cd|]; [|reflexivity].
+  destruct (Z.eqb (cd_gen cd) (op_gen cur)); cbn [negb]; [|now rewrite andb_false_r].
+  destruct (cstatus_eqb (cd_status cd) STrue); [discriminate|reflexivity].
+Qed.
+
+Lemma avail_current_b cur : avail_current cur -> C15Corr.avail_currentb cur = true.
+Proof.
+  intros (cd & Hf & Hs & Hg). unfold C15Corr.avail_currentb. rewrite Hf, Hs, Hg, Z.eqb_refl. reflexivity.
+Qed.
+
+Lemma filter_app' {A} (f : A -> bool) l1 l2 : filter f (l1 ++ l2) = filter f l1 ++ filter f l2.
+Proof. apply filter_app. Qed.
+
+Lemma firstn_app_exact {A} (l1 l2 : list A) : firstn (length l1) (l1 ++ l2) = l1.
+Proof. rewrite firstn_app, Nat.sub_diag, firstn_all. cbn. apply app_nil_r. Qed.
+
+(** the phase names of the ObjectSet under reconciliation are pairwise distinct *)
+Definition phase_names_unique (c : scase) : bool :=
+  match find_set (sc_sets c) (sc_kind c) (sc_ns c) (sc_name c) with
+  | Some m => nodupb N.eqb (map ph_name (os_phases m))
+  | None => true
+  end.
+
+Theorem m03_sound_partial (c : scase) :
+  phase_names_unique c = true -> m03 (set_obs_s c (SetCorr.model_run c)) = true.
+Proof.
+  intros Hnames. unfold m03. rewrite target_model. destruct (SetCorr.model_run c) as [[sw e] r] eqn:E.
+  unfold phase_names_unique in Hnames.
+  destruct (find_set (sc_sets c) (sc_kind c) (sc_ns c) (sc_name c)) as [m|] eqn:Ef; [|reflexivity].
+  destruct (is_activeb m) eqn:Ha; [|reflexivity]. cbn [negb orb].
+  destruct (SetMonitors.keys_nodup m) eqn:Hk; [|reflexivity]. cbn [negb orb].
+  apply keys_nodup_iff in Hk. pose proof (is_activeb_spec m Ha) as Hact.
+  apply (nodupb_spec N.eqb N.eqb_eq) in Hnames.
+  rewrite members_model, post_model. unfold SetCorr.model_run in E.
+  assert (Ef' : find_set (sw_sets (sc_world c)) (sc_kind c) (sc_ns c) (sc_name c) = Some m) by exact Ef.
+  apply andb_true_iff. split.
+  - (* a member request on phase j: the earlier local phases are complete *)
+    destruct (lifecycle_eqb (os_life m) LPaused) eqn:Hp.
+    + apply lifecycle_eqb_spec in Hp.
+      destruct (C09_paused_hands_off (sc_force c) (sc_world c) _ _ _ m sw e r Ef' Hact Hp E) as [-> _]. reflexivity.
+    + destruct (active_members_written (sc_force c) (sc_world c) _ _ _ m sw e r Ef' Hact E) as [->|[_ Hw]]; [reflexivity|].
+      apply forallb_forall. intros x Hx. rewrite Forall_forall in Hw.
+      destruct (written_by_local m x (Hw x Hx)) as (ph & Hin & Hkx & _).
+      destruct (phase_index_found m (locals m) (ev_key x) ph O Hk Hin Hkx) as (j & Hj1 & Hj2). cbn [plus] in Hj1. rewrite Hj1.
+      apply forallb_forall. intros q Hq. apply phase_ok_okb; [exact Hp|].
+      apply (C03_rollout_gated_all (sc_force c) (sc_world c) _ _ _ m sw e r Ef' Hact E (firstn j (locals m)) ph (skipn (S j) (locals m)) (nth_error_split _ _ _ Hj2)); [|exact Hq].
+      apply Exists_exists. exists x. split; [exact Hx|exact Hkx].
+  - (* the phase named as failing *)
+    apply statuses_forall. intros rv cs co rm fph ok Hin. rewrite events_model in Hin.
+    destruct fph as [n|]; [|reflexivity].
+    destruct (objectset_pass_active2 (sc_force c) (sc_world c) _ _ _ m sw e r Ef' Hact E) as [Hs|Hr].
+    { pose proof (stopped2_meta _ _ _ _ _ Hs Hin) as Hk2. cbn in Hk2. destruct Hk2 as [Hx _]. discriminate. }
+    destruct Hr as (mem1 & sw1 & sw2 & pevs & rem & pr & pre & Hs & _ & _ & _ & _ & _ & Hdup & Hrp & Hst & Hph & _ & Hpre & Hal).
+    pose proof (after_loop2_coh _ _ _ _ _ _ _ _ _ _ _ _ Hrp Hpre Hal) as Hcoh.
+    destruct (after_loop2_meta _ _ _ _ _ _ _ _ _ _ _ _ _ Hrp Hpre Hal Hin) as [Hk2|(f & ok' & Hf & He)].
+    { cbn in Hk2. destruct Hk2 as [Hx _]. discriminate. }
+    unfold tail_status in Hf. destruct pr as [e0| | |ctrlof failed].
+    { destruct (is_collision e0); [|discriminate]. injection Hf as <-. discriminate He. }
+    { discriminate Hf. }
+    { injection Hf as <-. discriminate He. }
+    injection Hf as <-. unfold status_ev_f in He.
+    assert (Hfl : failed = Some n) by (injection He; intros; congruence). subst failed.
+    pose proof (dup_zero_nodup _ Hdup) as Hnd1.
+    destruct (rpm_passed (sc_force c) mem1 _ _ _ _ _ _ _ _ _ _ _ Hrp Hnd1) as (ppre & ppost & Hsplit & Hpassed & (ph & post' & -> & Hname & Hfails) & Hmem & Hread).
+    pose proof Hs as (Hid & Hphs & Hlife & _). rewrite Hphs in Hsplit.
+    assert (Hin_ph : In ph (os_phases m)) by (rewrite Hsplit; apply in_or_app; right; now left).
+    rewrite (find_by_name _ ph n Hnames Hin_ph Hname).
+    unfold fails in Hfails. destruct (ph_class ph) eqn:Ecl.
+    + (* delegated: its phase object, as last seen, is not Available for its generation *)
+      destruct Hfails as (cur & active & Hcur & Hrel & _).
+      apply negb_true_iff. unfold C15Corr.seen_available. rewrite events_model.
+      specialize (Hcoh (C15Corr.join m ph)).
+      destruct (C15Corr.last_seen (C15Corr.join m ph) e None) as [x|]; [|reflexivity]. subst x.
+      unfold phase_obj_of, pobj_name in Hcur. unfold C15Corr.join. rewrite <- Hid, Hcur.
+      eapply relay_failed_not_avail; eauto.
+    + destruct Hfails as (p & Hp & Hpf).
+      assert (Hloc : locals m = filter (fun q => negb (ph_class q)) ppre ++ ph :: filter (fun q => negb (ph_class q)) post').
+      { unfold locals. rewrite Hsplit, filter_app. cbn [filter]. now rewrite Ecl. }
+      set (l1 := filter (fun q => negb (ph_class q)) ppre) in *. set (l2 := filter (fun q => negb (ph_class q)) post') in *.
+      assert (Hk' : NoDup (flat_map (pkeys m) (l1 ++ ph :: l2))) by (rewrite <- Hloc; exact Hk).
+      apply andb_true_iff. split.
+      * apply negb_true_iff. rewrite Hst. eapply obj_fails_okb; [exact Hp|]. eapply obj_fails_same; eauto.
+      * assert (Hk0 : In (match pkeys m ph with k :: _ => k | [] => Build_okey 0 0 0 end) (pkeys m ph)).
+        { unfold pkeys. destruct (ph_objects ph) as [|p0 ps]; [contradiction|]. now left. }
+        rewrite Hloc, (phase_index_exact m _ ph l2 l1 O Hk' Hk0). cbn [plus]. rewrite firstn_app_exact.
+        apply andb_true_iff. split.
+        -- apply forallb_forall. intros q Hq. subst l1. apply filter_In in Hq. destruct Hq as [Hq Hcq]. apply negb_true_iff in Hcq.
+           pose proof (Hpassed q Hq) as Hpq. unfold passed in Hpq. rewrite Hcq in Hpq. rewrite Hst.
+           apply phase_ok2_okb. eapply phase_ok2_same; eauto.
+        -- rewrite (after_loop2_members _ _ _ _ _ _ _ _ _ Hpre Hal). apply forallb_forall. intros x Hx.
+           rewrite Forall_forall in Hmem. specialize (Hmem x Hx). cbn [firstn] in Hmem.
+           unfold local_keys in Hmem. apply in_flat_map in Hmem. destruct Hmem as (q & Hq & Hkq).
+           rewrite (phase_keys_same _ _ Hs) in Hkq. rewrite filter_app in Hq. cbn [filter] in Hq. unfold is_local in Hq. rewrite Ecl in Hq. cbn [negb] in Hq.
+           destruct (phase_index_bound m (ev_key x) q (l1 ++ [ph]) l2 O Hq Hkq) as (j & Hj & Hlt).
+           rewrite <- app_assoc in Hj. cbn [app plus] in Hj. rewrite Hj. apply Nat.leb_le. rewrite app_length in Hlt. cbn in Hlt. lia.
+Qed.
+
+(** *** Cases for the refutations and the non-vacuity examples *)
+Definition case_of (force : bool) (sw : sworld) (k ns n : N) : scase :=
+  {| sc_force := force; sc_store := w_store (sw_w sw); sc_rv := w_rv (sw_w sw); sc_uid := w_uid (sw_w sw);
+     sc_sets := sw_sets sw; sc_phases := sw_phases sw; sc_nss := sw_nss sw; sc_kind := k; sc_ns := ns; sc_name := n;
+     sc_res := SNothing; sc_events := []; sc_post := []; sc_sets' := []; sc_phases' := []; sc_rv' := 0; sc_uid' := 0 |}.
+
+Definition x_id : oid := {| oi_kind := KObjectSet; oi_ns := 1; oi_name := 10; oi_uid := 100 |}.
+Definition x_po (gk name : N) : pobj :=
+  {| po_gk := gk; po_ns := 0; po_name := name; po_body := 1; po_cp := CPPrevent; po_ownerrefs := false; po_dryreject := false |}.
+Definition x_set (phs : list phase) (life : lifecycle) (conds : list cond) (remotes : list (N * N)) (revision : Z) (prev : list N) : oset :=
+  {| os_id := x_id; os_rv := 5; os_gen := 1; os_deleting := false; os_fin := true; os_orphan := false; os_pkg := 0;
+     os_life := life; os_phases := phs; os_prev := prev; os_revision := revision; os_conds := conds; os_ctrlof := [];
+     os_remotes := remotes |}.
+Definition x_ref : oref := {| r_kind := KObjectSet; r_name := 10; r_uid := 100; r_ctrl := true |}.
+Definition x_obj (uid : N) (avail : N) : obj :=
+  {| o_uid := uid; o_rv := uid; o_gen := 1; o_owners := [x_ref]; o_aowners := []; o_rev := RevNum 1; o_cache := true;
+     o_pkg := 0; o_body := 1; o_avail := avail; o_obsgen := Some 1%Z; o_deleting := false; o_fin := false |}.
+Definition x_key (gk name : N) : okey := {| k_gk := gk; k_ns := 1; k_name := name |}.
+Definition x_world (store : store) (sets : list oset) (phases : list osphase) : sworld :=
+  {| sw_w := {| w_store := store; w_rv := 50; w_uid := 60 |}; sw_sets := sets; sw_phases := phases; sw_nss := [(1, false)] |}.
+
+(** Two phases named 1: the first (a ConfigMap) completes, the second (a Widget whose probe fails) is reported as
+    failing "phase 1"; the monitor looks the name up, finds the first phase, which is complete, and raises an alarm. *)
+Definition x_dupname_set : oset :=
+  x_set [ {| ph_name := 1; ph_class := false; ph_objects := [x_po 1 1] |};
+          {| ph_name := 1; ph_class := false; ph_objects := [x_po 2 2] |} ] LActive [] [] 1 [].
+Definition x_dupname_case : scase :=
+  case_of false (x_world [(x_key 1 1, x_obj 21 0); (x_key 2 2, x_obj 22 2)] [x_dupname_set] []) KObjectSet 1 10.
+
+Theorem m03_refuted :
+  exists c, phase_names_unique c = false /\ m03 (set_obs_s c (SetCorr.model_run c)) = false.
+Proof. exists x_dupname_case. vm_compute. split; reflexivity. Qed.
+
+(** The hypothesis of [m03_sound_partial] holds on the same world with distinct phase names, where the pass names
+    phase 2 as failing. *)
+Definition x_names_set : oset :=
+  x_set [ {| ph_name := 1; ph_class := false; ph_objects := [x_po 1 1] |};
+          {| ph_name := 2; ph_class := false; ph_objects := [x_po 2 2] |} ] LActive [] [] 1 [].
+Definition x_names_case : scase :=
+  case_of false (x_world [(x_key 1 1, x_obj 21 0); (x_key 2 2, x_obj 22 2)] [x_names_set] []) KObjectSet 1 10.
+Example m03_hypothesis_satisfiable :
+  phase_names_unique x_names_case = true /\
+  map (fun s => let '(_, _, fph, _) := s in fph) (statuses (set_obs_s x_names_case (SetCorr.model_run x_names_case))) = [Some 2].
+Proof. vm_compute. split; reflexivity. Qed.
